@@ -1,13 +1,14 @@
 """C14 - driver events decode to what the driver sent; type codes are a bijection."""
 from vlib.term import z, to_coq
 from props import wire_k1
+from props import c08 as c8     # a slice of the scheduled copy-receiver runs: an event must not be handed over torn (see generate)
 
 ID = 'C14'
 PROP_FILE = 'Props/C14.v'
-EVAL_FILES = ['Oracle/C14Oracle.v']
-CRATES = ['c14']
+EVAL_FILES = ['Oracle/C14Oracle.v'] + list(c8.EVAL_FILES)
+CRATES = ['c14', 'c08']
 MODES = ['debug', 'release']
-IMPORTS = ('Require Import V.Base.MachineInt V.Model.WireBytes V.Model.WireCodes V.Model.WireEvents V.Oracle.C14Oracle.')
+IMPORTS = ('Require Import V.Base.MachineInt V.Model.WireBytes V.Model.WireCodes V.Model.WireEvents V.Oracle.C14Oracle.\n' + c8.IMPORTS)
 K1_TABLES = wire_k1.K1_TABLES
 RULE = ('code: every AeronCommand variant (as i32, from_command_id of it); fromid: every protocol code, its neighbours, 0xF9, a dense '
         'block around the two code ranges and random i32 ids (all of -1..0x1000 plus 10^4 random in thorough); '
@@ -19,6 +20,7 @@ RULE = ('code: every AeronCommand variant (as i32, from_command_id of it); fromi
         '0x01020304, random}, counter ids 0..1023, string lengths {0..9, 199..201, 255..257, 1000, 3000, the largest that fits 4096 '
         'and the three around it, random 0..3900}, log files are real files at relative paths of that length; events longer than 4096 '
         'bytes (refused); raw: unknown / command type ids, truncated counter events, oversize records. '
+        'conc (crate c08): a slice of 60 (thorough 600) of C08\'s scheduled transmitter / CopyBroadcastReceiver runs, judged by C08\'s model and oracle - an event is never handed to the listener torn. '
         'A case is non-trivial when it is an event whose string is >= 256 bytes or which has a field outside the i32 range, or a code '
         'case of an event type; distinct = distinct case tuples')
 ASSUMPTIONS = [
@@ -194,10 +196,26 @@ def generate(rng, tier):
             raw.append({'kind': 'raw', 'c0': 5, 'type': t, 'len': ln, 'hex': '0102030405060708'})
     cases += raw
     rng.shuffle(cases)      # long strings are the expensive cases: spread them over the shards
-    return cases
+    return cases + _c08_slice(rng, tier)
 
 
 # ---------------------------------------------------------------------------------------------- one case
+def _c08_slice(rng, tier):
+    """"field values identical to those encoded" also while the driver keeps transmitting: the events reach the listener adapter through
+    CopyBroadcastReceiver, whose copy into the scratch buffer must be validated after the copy. A slice of C08's scheduled
+    transmitter / copy-receiver runs (deterministic scheduler, every access a step) is judged here with C08's model and oracle."""
+    import random
+    r = random.Random(rng.getrandbits(32) ^ 0xC14)
+    cs = c8._conc_cases(r, False)
+    r.shuffle(cs)
+    cs = cs[:60 if tier != 'thorough' else 600]
+    return [dict(c, crate='c08') for c in cs]
+
+
+def _c08(c):
+    return c.get('crate') == 'c08'
+
+
 def _corr(c):
     return wrap64(c['c0'] + 1)
 
@@ -224,6 +242,8 @@ def fields(c):
 
 
 def impl_line(c):
+    if _c08(c):
+        return c8.impl_line(c)
     if c['kind'] == 'code':
         return 'code %s' % c['name']
     if c['kind'] == 'fromid':
@@ -282,6 +302,8 @@ def _raw_bytes(c):
 
 
 def model_expr(c, mode):
+    if _c08(c):
+        return c8.model_expr(c, mode)
     m = mode_c(mode)
     if c['kind'] == 'code':
         return '(to_id %s, from_id (to_id %s))' % (c['name'], c['name'])
@@ -296,6 +318,8 @@ def model_expr(c, mode):
 
 
 def oracle_expr(c, mode, obs):
+    if _c08(c):
+        return c8.oracle_expr(c, mode, obs)
     if c['kind'] == 'code':
         if isinstance(obs, int) or obs[0] != 'tuple':
             return 'false'
@@ -311,6 +335,8 @@ def oracle_expr(c, mode, obs):
 
 
 def nontrivial(c):
+    if _c08(c):
+        return c8.nontrivial(c)
     if c['kind'] == 'code':
         return c['name'].startswith('Response')
     if c['kind'] != 'ev':
@@ -321,6 +347,8 @@ def nontrivial(c):
 
 
 def shrink(c):
+    if _c08(c):
+        return [dict(x, crate='c08') for x in c8.shrink(c)]
     out = []
     if c['kind'] != 'ev':
         return out
@@ -349,3 +377,10 @@ def extra_checks(run):
     return [(True, 'hook find_exclusive_publication_for_verif',
              'present: limit / status counter ids, original registration id and log file of exclusive publications are observed through find_exclusive_publication' if ok else
              'ABSENT in the repository under test: limit / status counter ids of exclusive publications are echoed from the event, not observed')]
+
+
+normalize = c8.normalize      # only rewrites a whole-case Crash of the c08 harness; C14's own observations pass through
+
+
+def known_class(c, mode, obs):
+    return c8.known_class(c, mode, obs) if _c08(c) else None
